@@ -8,7 +8,9 @@ GENERATORS = [
 TRUSTED_BASE = [
     "Coq 8.16.1 kernel and its VM (vm_compute used for case evaluation and finite-domain lemmas); no native_compute",
     "no axioms declared; Print Assumptions of every property theorem is checked to be 'Closed under the global context' on every run",
-    "translator harness/cmd/facts (reflection/constant dump into coq/Generated/Facts.v)",
+    "coqchk -silent -o over the closure of all Properties/*.vo: Axioms <none>, no type-in-type, no unsafe fixpoints, no assumed positivity (notes/coqchk.txt; re-run per property in the thorough tier)",
+    "Coq standard library only (List, NArith, ZArith, String, Ascii, Lia/Zify, Permutation, Sorted, Decimal*); Uint63 literals only transport case bytes, never appear in a model definition or theorem; no extraction, no Extract directives",
+    "translators harness/cmd/facts (reflection/constant dump into coq/Generated/Facts.v) and, for C15, harness/cmd/lockprog (go/ast -> lock programs, coq/Generated/LockProgs.v)",
     "correspondence harness (Go): generators, observable projection (errors.Is class sets, never messages), case-file printer, coqc output scraper",
     "hand-written Gallina model compared with the implementation on every run (coq/Model); Go runtime, stdlib and third-party libraries are modelled, not verified",
 ]
